@@ -6,11 +6,11 @@ CTX = 300
 PROBE_CTX = 2000
 
 
-def blocking_cfg(name, kinds, leak, wakes, held):
+def blocking_cfg(name, kinds, leak, wakes, held, buffered=True):
     b = lambda x: "TRUE" if x else "FALSE"
     with open(os.path.join(SPEC, name), "w") as f:
-        f.write("SPECIFICATION Spec\nCONSTANTS\n  Kinds <- %s\n  LeakRLock = %s\n  CloseWaitWakes = %s\n  MuHeldDuringWait = %s\n  MaxMeta = 2\n"
-                "INVARIANTS NoLockLeak NoOverrun\nPROPERTIES EveryCallReturns\nCHECK_DEADLOCK FALSE\n" % (kinds, b(leak), b(wakes), b(held)))
+        f.write("SPECIFICATION Spec\nCONSTANTS\n  Kinds <- %s\n  LeakRLock = %s\n  CloseWaitWakes = %s\n  MuHeldDuringWait = %s\n  ResultChBuffered = %s\n  MaxMeta = 2\n"
+                "INVARIANTS NoLockLeak NoOverrun NoStuckHandOver\nPROPERTIES EveryCallReturns\nCHECK_DEADLOCK FALSE\n" % (kinds, b(leak), b(wakes), b(held), b(buffered)))
     return name
 
 
@@ -122,6 +122,20 @@ def family(quick):
         scs.append({"id": "C08/noread/closeConn/%d" % k, "kind": "iscp", "conn": {"pingMs": [5000, 1000]},
                     "steps": base + [{"a": "sendMeta", "g": "P1", "tag": 9, "ctxMs": 1000, "wait": True}] * (k - 1)
                     + [{"a": "stopReading"}, {"a": "sleep", "ms": 30}, {"a": "closeConn", "g": "T", "ctxMs": CTX, "wait": True}, {"a": "quiesce", "ms": 50}]})
+    # (8) the broker delays an acknowledgement beyond the stream's ack timeout (the sender has given up waiting for it): the result must be
+    #     absorbed without holding up the stream - every later call on it still returns within its bound
+    late = base + [{"a": "openUp", "obj": "U1", "qos": "reliable", "closeTimeoutMs": 250, "ackTimeoutMs": 100, "policy": {"k": "immediate"}, "must": True},
+                   {"a": "ackMode", "mode": "manual"}, {"a": "write", "g": "W", "obj": "U1", "id": "A", "pts": [[1, 4]], "ctxMs": 1000, "wait": True},
+                   {"a": "await", "ev": "BRecvChunk", "match": {"seq": 1}, "ms": 1000, "must": True}, {"a": "sleep", "ms": 300},
+                   {"a": "ack", "obj": "U1", "seqs": [1]}, {"a": "sleep", "ms": 60}]
+    for name, call in (("write", {"a": "write", "g": "T", "obj": "U1", "id": "A", "pts": [[2, 4]], "ctxMs": CTX, "wait": True}),
+                       ("flush", {"a": "flush", "g": "T", "obj": "U1", "ctxMs": CTX, "wait": True}),
+                       ("state", {"a": "state", "obj": "U1"}),
+                       ("closeUp", {"a": "closeUp", "g": "T", "obj": "U1", "ctxMs": CTX, "wait": True}),
+                       ("closeConn", {"a": "closeConn", "g": "T", "ctxMs": CTX, "wait": True})):
+        tail = probes() if name != "closeConn" else [{"a": "quiesce", "ms": 50}]
+        scs.append({"id": "C08/lateAck/%s" % name, "kind": "iscp", "conn": dict(conn),
+                    "steps": late + [call, {"a": "ackMode", "mode": "auto"}, {"a": "sleep", "ms": 50}] + tail})
     return scs
 
 
@@ -133,12 +147,18 @@ def run():
         "a call without a deadline is judged only where keep-alive governs it (broker completely silent): bound 1.5 s",
         "iscp.Connect has no context and is not among the calls the property lists; it is not judged",
         "the lock-release lemma over every control-flow path of every locking function is NOT decided (static analysis); "
-        "the model Blocking.tla covers the locks whose leak or convoy was found by reading (wireConnMu, downstreams.mu) and the replay exercises them",
+        "the model Blocking.tla covers the locks whose leak or convoy was found by reading (wireConnMu, downstreams.mu, Upstream.mu during the result hand-over) and the replay exercises them",
     ]
-    for name, kinds, held in (("A", "KindsA", False), ("B", "KindsB", False)):
+    for name, kinds, held in (("A", "KindsA", False), ("B", "KindsB", False), ("C", "KindsC", False)):
         cfg = blocking_cfg("Blocking_c08_%s.cfg" % name, kinds, leak=False, wakes=True, held=held)
         ctx.l1("Blocking", cfg, workers=8, timeout=600)
         os.remove(os.path.join(SPEC, cfg))
+    # sensitivity: with an unbuffered result channel (as coded at the pinned commit) a late acknowledgement leaves Upstream.mu held
+    cfg = blocking_cfg("Blocking_c08_unbuf.cfg", "KindsC", leak=False, wakes=True, held=False, buffered=False)
+    r = ctx.l1("Blocking", cfg, workers=8, timeout=600, must_hold=False)
+    os.remove(os.path.join(SPEC, cfg))
+    if r.violated not in ("NoStuckHandOver", "NoOverrun"):
+        raise Inconclusive("Blocking model with ResultChBuffered = FALSE should violate NoStuckHandOver / NoOverrun, TLC says %s" % (r.violated or r.error or "nothing"))
     if not quick:
         # sanity of the model: the as-coded variants must violate the properties (the defects repaired in /repo)
         for name, kinds in (("A", "KindsA"), ("B", "KindsB")):
@@ -154,7 +174,7 @@ def run():
     ctx.finish(rule="fault enumeration: request kinds {openUp, openDown, sendMeta, closeUp, closeDown} x broker behaviour at that message {drop, late, soon, "
                     "misaddress, disconnect, refuse}; waits ended only by context / close timeout / keep-alive (never-acked Close, reads and receives without "
                     "data, unanswered calls, write/flush/sendMeta during an outage with a hanging redial); completely silent broker with deadline-less calls; "
-                    "two concurrent calls (mutex convoy); misaddressed traffic (unknown aliases, source nodes, request and call ids); each followed by a probe "
+                    "two concurrent calls (mutex convoy); an acknowledgement delayed beyond the ack timeout followed by write / flush / State / Close; misaddressed traffic (unknown aliases, source nodes, request and call ids); each followed by a probe "
                     "sequence against a cooperative broker; non-trivial = verdict produced",
                extra_cov={"evaluations": len(scs), "distinct_nontrivial": nv}, exhaustive=True)
 
